@@ -16,6 +16,7 @@ structure Sig where
   r : Bool
   b : Beat
   undef : Bool
+  rUndef : Bool := false
   deriving Inhabited
 
 structure Run where
@@ -46,6 +47,8 @@ structure CaseSt where
   diffed : Bool := false
   failed : Bool := false
   stallmode : Nat := 0
+  frame : Bool := false          -- stream carries sop and eop with coherent framing at the head
+  inPkt : Array Bool := #[]      -- per boundary: inside a packet (last transferred beat had no eop)
 
 structure D where
   cases : Nat := 0
@@ -73,7 +76,13 @@ def hexVal (c : Char) : Nat :=
 def parseHex (s : String) : Nat := s.foldl (fun a c => a * 16 + hexVal c) 0
 def toHex (n : Nat) : String := String.ofList (Nat.toDigits 16 n)
 
-def showBeat (b : Beat) : String := s!"{toHex b.data},{if b.eop then 1 else 0}{if b.sop then 1 else 0},{toHex b.aux},be={toHex b.be}"
+def showBeat (b : Beat) : String := s!"{toHex b.data},{if b.eop then 1 else 0}{if b.sop then 1 else 0},{toHex b.aux},be={toHex b.be},emp={toHex b.emp}"
+
+/-- names of the fields in which two beats differ, e.g. `sop` or `data+be` -/
+def beatDiff (a b : Beat) : String :=
+  "+".intercalate ((if a.data != b.data then ["data"] else []) ++ (if a.eop != b.eop then ["eop"] else []) ++
+    (if a.sop != b.sop then ["sop"] else []) ++ (if a.aux != b.aux then ["aux"] else []) ++
+    (if a.be != b.be then ["be"] else []) ++ (if a.emp != b.emp then ["emp"] else []))
 
 def words (l : String) : List String := (l.trimAscii.toString.splitOn " ").filter (· ≠ "")
 
@@ -84,12 +93,16 @@ def parseSig (w : String) : Sig :=
   match w.splitOn "," with
   | vr :: d :: es :: m :: rest =>
     let be := rest.headD "0"
+    let emp := (rest.drop 1).headD "0"
     let c := vr.toList
     let v := c.getD 0 '0'; let r := c.getD 1 '0'
     let e := es.toList.getD 0 '0'; let s := es.toList.getD 1 '0'
-    let und := v == 'u' || r == 'u' || (v == '1' && (d == "u" || m == "u" || be == "u" || e == 'u' || s == 'u'))
-    ⟨v == '1', r == '1', ⟨parseHex d, e == '1', s == '1', parseHex m, parseHex be⟩, und⟩
-  | _ => ⟨false, false, Beat.zero, true⟩
+    -- payload is logged in every cycle (undefined bits of the words as 0); only flags can be `u`
+    -- an undefined ready on a stream that offers nothing is not a handshake event (simulator pessimism: e.g. widthExtend
+    -- derives ready(source) from eop(source) of whatever an invalid source happens to hold)
+    let und := v == 'u' || (r == 'u' && v == '1') || (v == '1' && (e == 'u' || s == 'u'))
+    ⟨v == '1', r == '1', ⟨parseHex d, e == '1', s == '1', parseHex m, parseHex be, parseHex emp⟩, und, r == 'u'⟩
+  | _ => ⟨false, false, Beat.zero, true, false⟩
 
 def parseDesc (ws : List String) : Option Desc :=
   -- "stage <i> <name> params… win= wout="
@@ -103,6 +116,8 @@ def parseDesc (ws : List String) : Option Desc :=
   | _ :: _ :: "fifo" :: d :: l :: ft :: _ => some (.fifo d.toNat! l.toNat! (ft == "1"))
   | _ :: _ :: "ext" :: r :: w :: bw :: _ => some (.ext r.toNat! w.toNat! bw.toNat!)
   | _ :: _ :: "red" :: r :: w :: bw :: _ => some (.red r.toNat! w.toNat! bw.toNat!)
+  | _ :: _ :: "pext" :: r :: w :: bw :: ek :: ew :: _ => some (.pext r.toNat! w.toNat! bw.toNat! ek.toNat! ew.toNat!)
+  | _ :: _ :: "pred" :: r :: w :: bw :: ek :: _ => some (.pred r.toNat! w.toNat! bw.toNat! ek.toNat!)
   | _ => none
 
 namespace Gatery.C16
@@ -111,15 +126,19 @@ instance : Inhabited Desc := ⟨.ds⟩
 def Desc.name : Desc → String
   | .ds => "ds" | .dsb => "dsb" | .rr => "rr" | .dec => "dec" | .stall => "stall"
   | .dly n => s!"dly{n}" | .fifo d l ft => s!"fifo{d}/{l}/{if ft then 1 else 0}" | .ext r _ _ => s!"ext{r}" | .red r _ _ => s!"red{r}"
+  | .pext r _ _ ek _ => s!"pext{r}e{ek}" | .pred r _ _ ek => s!"pred{r}e{ek}"
 
 def Desc.kind : Desc → String
   | .ds => "ds" | .dsb => "dsb" | .rr => "rr" | .dec => "dec" | .stall => "stall"
   | .dly _ => "dly" | .fifo _ _ ft => if ft then "fifo0" else "fifo" | .ext _ _ _ => "ext" | .red _ _ _ => "red"
+  | .pext .. => "pext" | .pred .. => "pred"
 
 /-- list specification of a stage -/
 def Desc.spec : Desc → Trans Beat Beat
   | .ext r w bw => extSpec r extSlot (extMk w bw)
   | .red r w bw => redSpec r (redSlice r w bw)
+  | .pext r w bw ek ew => pExtSpec r (0, 0) extSlot Beat.eop Beat.sop Beat.emp (pExtStart r w ek) (emptyUnit ek w) (pExtMod r w ek ew) (pExtMk w bw)
+  | .pred r w bw ek => pRedSpec r (pRedSlice r w bw ek) (pRedFin r w bw ek)
   | _ => Trans.idT
 
 def Desc.usesCtl : Desc → Bool
@@ -136,7 +155,7 @@ instance : Inhabited StCheck := ⟨mkCheck .ds⟩
 def chainSpecOf (ds : List Desc) : Trans Beat Beat := ds.foldl (fun T d => T.comp d.spec) Trans.idT
 
 def startCase (ws : List String) : CaseSt :=
-  { id := ws.getD 1 "?", stallmode := ((kv ws "stallmode").getD "0").toNat! }
+  { id := ws.getD 1 "?", stallmode := ((kv ws "stallmode").getD "0").toNat!, frame := (kv ws "frame").getD "0" == "1" }
 
 def finishSetup (cs : CaseSt) : CaseSt :=
   let ds := cs.descs.toList
@@ -144,6 +163,7 @@ def finishSetup (cs : CaseSt) : CaseSt :=
   let T := chainSpecOf ds
   { cs with
     stages := cs.descs.map mkCheck
+    inPkt := Array.replicate (cs.descs.size + 1) false
     chain := some ⟨S, S.init⟩
     chainSpec := some { name := "chain", run := ⟨wire, ()⟩, spec := ⟨T, T.init⟩ } }
 
@@ -163,7 +183,7 @@ def specStep (c : StCheck) (bi bo : Sig) : StCheck × Option String := Id.run do
       if k < c.expected.size then c.expected[k]? else
         if bi.v then (c.spec.T.runFrom c.spec.s [bi.b])[k - c.expected.size]? else none
     match exp with
-    | some e => if e != bo.b then err := some s!"emitted[{k}]={showBeat bo.b} expected={showBeat e}"
+    | some e => if e != bo.b then err := some s!"fields={beatDiff e bo.b} emitted[{k}]={showBeat bo.b} expected={showBeat e}"
     | none => err := some s!"emitted[{k}]={showBeat bo.b} but no accepted or offered beat is left to account for it"
     c := { c with nout := k + 1 }
   if bi.v && bi.r then
@@ -173,12 +193,12 @@ def specStep (c : StCheck) (bi bo : Sig) : StCheck × Option String := Id.run do
 
 def stepRun (r : Run) (ctl : Ctl) (bi bo : Sig) : Run × Fwd Beat × Bool :=
   let x : Fwd Beat := ⟨bi.v, bi.b⟩
-  (⟨r.S, r.S.next r.s ctl x bo.r⟩, r.S.fwd r.s ctl x, r.S.bwd r.s ctl bo.r)
+  (⟨r.S, r.S.next r.s ctl x bo.r⟩, r.S.fwd r.s ctl x, r.S.bwd r.s ctl x bo.r)
 
 def cmpOut (what : String) (o : Fwd Beat) (rin : Bool) (bi bo : Sig) : Option String :=
   if o.valid != bo.v then some s!"{what} field=vout model={o.valid} impl={bo.v}"
   else if bo.v && o.data != bo.b then some s!"{what} field=dout model={showBeat o.data} impl={showBeat bo.b}"
-  else if rin != bi.r then some s!"{what} field=rin model={rin} impl={bi.r}"
+  else if !bi.rUndef && rin != bi.r then some s!"{what} field=rin model={rin} impl={bi.r}"
   else none
 
 structure DAcc where
@@ -211,7 +231,9 @@ def stageStep (sigs : Array Sig) (ctlBits : List Bool) (ac : DAcc × List Bool) 
   let a := match err with
     | some e =>
       let nxt := match a.cs.descs[i+1]? with | some (d2 : Desc) => d2.kind | none => "end"
-      a.fail s!"seq:{desc.kind}" s!"stage={i} {st.name} next={nxt} cyc={a.cs.cyc} {e}"
+      -- signature = stage kind + the beat fields that are wrong (`seq:pred:sop`), or `:extra` for a beat nobody accounted for
+      let flds := if e.startsWith "fields=" then ((e.drop 7).toString.splitOn " ").headD "?" else "extra"
+      a.fail s!"seq:{desc.kind}:{flds}" s!"stage={i} {st.name} next={nxt} cyc={a.cs.cyc} {e}"
     | none => a
   let d := a.d
   let d := { d with ops := d.ops + 1, tin := d.tin + (if bi.v && bi.r then 1 else 0),
@@ -237,6 +259,20 @@ def lawStep (sigs : Array Sig) (ctlBits : List Bool) (a : DAcc) (j : Nat) : DAcc
         let sig := if stallShape then s!"law:{desc.kind}" else if desc.usesCtl then s!"law:{desc.kind}-other" else s!"law:{desc.kind}"
         a.fail sig s!"stage={j-1} {desc.name} cyc={a.cs.cyc} output offered {showBeat p.b} with ready=0, next cycle valid={q.v} payload={showBeat q.b} stall_prev={cPrev} stall_now={cNow}"
     else a
+  else a
+
+/-- packet framing at boundary `j`: a transferred beat carries sop exactly if the previous transferred beat carried eop
+    (or it is the first one) — checked on streams that carry both signals and whose producer frames coherently -/
+def frameStep (sigs : Array Sig) (a : DAcc) (j : Nat) : DAcc :=
+  let q := sigs[j]!
+  if q.v && q.r then
+    let inP := a.cs.inPkt.getD j false
+    let a := if q.b.sop == !inP then a else
+      if j == 0 then a.diff "harness producer frames packets incoherently"
+      else
+        let desc : Desc := a.cs.descs[j-1]!
+        a.fail s!"frame:{desc.kind}" s!"stage={j-1} {desc.name} cyc={a.cs.cyc} transferred {showBeat q.b}: sop={q.b.sop} but {if inP then "inside a packet" else "at the start of a packet"}"
+    { a with cs := { a.cs with inPkt := a.cs.inPkt.setIfInBounds j (!q.b.eop) } }
   else a
 
 def processCycle (cs : CaseSt) (d : D) (ws : List String) : CaseSt × D × List String :=
@@ -269,6 +305,7 @@ def processCycle (cs : CaseSt) (d : D) (ws : List String) : CaseSt × D × List 
       | none => a
     let a := { a with d := { a.d with tout := a.d.tout + (if bn.v && bn.r then 1 else 0) } }
     let a := if a.cs.prev.size == n + 1 then (List.range (n+1)).foldl (lawStep sigs ctlBits) a else a
+    let a := if a.cs.frame then (List.range (n+1)).foldl (frameStep sigs) a else a
     ({ a.cs with prev := sigs, prevCtl := ctlBits, cyc := a.cs.cyc + 1 }, { a.d with cycles := a.d.cycles + 1 }, a.out)
 
 def endCase (cs : CaseSt) (d : D) : D × List String :=
